@@ -10,6 +10,7 @@ from octoprint.util.comm import gcode_and_subcode_for_cmd
 
 TOL = F(1, 10 ** 7)
 DEPTH_TOL = F(1, 10 ** 4)    # retraction lengths rendered in inches are equal only up to the rounding of the text
+EXTRUDES = F(1, 10**6)      # a move "extrudes" if it pushes more than a nanometre-scale float residue (binary64 noise of a re-sent E value is ~1e-15 mm)
 AT_ENABLE = re.compile(r'^\s*(enable|on)(\s|$)')
 AT_DISABLE = re.compile(r'^\s*(disable|off)(\s|$)')
 
@@ -199,7 +200,7 @@ def check_C01(prog, steps):
             if (st.F1.x, st.F1.y, st.F1.z) != (st.F0.x, st.F0.y, st.F0.z):
                 fails.append(fail('tool moved while inside an excluded region: %s -> %s' % ((float(st.F0.x), float(st.F0.y), float(st.F0.z)), (float(st.F1.x), float(st.F1.y), float(st.F1.z))), st, k, sig, prog))
             for (o, eff, Pn) in st.effs:
-                if eff['dfil'] > 0:
+                if eff['dfil'] > EXTRUDES:
                     fails.append(fail('filament advanced inside an excluded region by %r' % o, st, k, sig, prog))
                 c = reader.read(o)
                 if c is not None and c.code in ('G0', 'G1', 'G2', 'G3') and (c.has('X') or c.has('Y') or c.has('Z')):
@@ -273,7 +274,7 @@ def check_C05(prog, steps):
             if st.F1.fwdepth > 1 or st.F1.fwdepth < 0:
                 fails.append(fail('firmware retract/recover parity broken (depth %d)' % st.F1.fwdepth, st, k, sig, prog))
             for (o, eff, Pn) in st.effs:
-                if eff['dfil'] > 0 and eff['moved_xy'] and Pn.fwret and not st.U1.fwret:
+                if eff['dfil'] > EXTRUDES and eff['moved_xy'] and Pn.fwret and not st.U1.fwret:
                     fails.append(fail('printing move %r executed while still firmware-retracted' % o, st, k, sig, prog))
             continue
         maxdep = max(maxdep, st.U1.depth)
@@ -284,7 +285,7 @@ def check_C05(prog, steps):
             fails.append(fail('filament retracted deeper (%s) than the deepest retraction the file requested so far (%s)' % (float(dF), float(maxdep)), st, k, sig, prog))
         prev = st.F0
         for (o, eff, Pn) in st.effs:
-            if eff['dfil'] > 0 and eff['moved_xy']:
+            if eff['dfil'] > EXTRUDES and eff['moved_xy']:
                 # a printing move: depth before it must equal the file's depth before its own move
                 if abs(prev.depth - st.U0.depth) > DEPTH_TOL:
                     fails.append(fail('printing move %r starts at retraction depth %s, the file is at %s' % (o, float(prev.depth), float(st.U0.depth)), st, k, sig, prog))
